@@ -8,11 +8,13 @@ def main():
     want = set(base["stable_pass"])
     env = dict(os.environ)
     env.pop("ODC_GEO_VERIF", None)
+    src = sys.argv[1] if len(sys.argv) > 1 else "/repo"  # optional: a scratch worktree of /repo
+    env["PYTHONPATH"] = src
     with tempfile.TemporaryDirectory() as td:
         jx = os.path.join(td, "r.xml")
         cmd = ["/venv/bin/python", "-m", "pytest", "-q", "-p", "no:cacheprovider", "--timeout=900",
                "--continue-on-collection-errors", "-W", "ignore", f"--junitxml={jx}"]
-        subprocess.run(cmd, cwd="/repo", env=env, stdout=subprocess.DEVNULL, stderr=subprocess.DEVNULL)
+        subprocess.run(cmd, cwd=src, env=env, stdout=subprocess.DEVNULL, stderr=subprocess.DEVNULL)
         root = ET.parse(jx).getroot()
     ok = set()
     bad = set()
